@@ -6,7 +6,7 @@ import Varpulis.Driver.Util
 ```
 new <cluster|cli> anon=<0|1> anonrole=<role> keys=<k:role;…|-> raft=<+key|-> tenants=<k:tid;…|-> admin=<+key|->
 anyadmin <+key|->                                       => ok          (`RbacConfig::any_admin_key`)
-req <route#> <method> <path> api=<+key|-> adm=<+key|->  => pass | deny <status> <same|changed> | nomatch <status>
+req <route#> <method> <path> api=<+key|-> adm=<+key|->  => pass | deny <status> <same|changed> | nomatch <404|405> <same|changed>
 ```
 Verdict order for `req`: (1) JUDGE when the implementation served a request whose *documented*
 requirement (openapi.yaml / raft rule) the credential is not granted, or when a refused request
@@ -63,7 +63,7 @@ def stepReq (st : St) (idx : Nat) (m : Method) (path : List String) (cred : Cred
   let q : Request := { app := st.app, method := m, path := path, cred := cred }
   let model := match (dispatch st.cfg codeRoutes q).status st.app with
     | none => "pass"
-    | some s => s!"deny {s} same"
+    | some s => if s == 404 || s == 405 then s!"nomatch {s} same" else s!"deny {s} same"
   let intended := match codeRoutes[idx]? with
     | some r => r.app == st.app && r.method == m && matchPath r.path path
     | none => false
@@ -76,7 +76,7 @@ def stepReq (st : St) (idx : Nat) (m : Method) (path : List String) (cred : Cred
       if grants (authenticate st.cfg cred) req then verdict model impl
       else s!"JUDGE C29 served although the credential is not granted the documented requirement ({reqText req})"
     | none => "JUDGE C29 served a request for which nothing is documented"
-  else if iw.head? == some "deny" && iw.getLast? == some "changed" then
+  else if (iw.head? == some "deny" || iw.head? == some "nomatch") && iw.getLast? == some "changed" then
     "JUDGE C29 a refused request changed coordinator/tenant/raft state"
   else verdict model impl
 
